@@ -72,6 +72,8 @@ def main():
     if rc != 0:
         print("patch does not apply to /repo:", o); sys.exit(2)
     results = {}
+    if "--no-checks" in args:
+        checks = []
     try:
         for c in checks:
             t0 = time.time()
@@ -87,6 +89,13 @@ def main():
     os.makedirs(dst, exist_ok=True)
     for f in ("patch.diff", "demo.diff"):
         shutil.copy(os.path.join(sd, f), os.path.join(dst, f))
+    prev = {}
+    if os.path.exists(os.path.join(dst, "meta.json")):
+        prev = json.load(open(os.path.join(dst, "meta.json"))).get("evaluation", {})
+    if report["confirmed"] is None and prev.get("confirmed") is not None:      # --skip-confirm keeps the earlier confirmation
+        report["confirmed"], report["steps"] = prev["confirmed"], prev.get("steps", [])
+    if not checks and prev.get("checks"):                                        # --no-checks keeps the earlier check results
+        report["checks"], report["detected_by_own_check"] = prev["checks"], prev.get("detected_by_own_check")
     meta["evaluation"] = report
     json.dump(meta, open(os.path.join(dst, "meta.json"), "w"), indent=1)
     print(json.dumps({"seed": "%s-%s" % (prop, seed), "confirmed": report["confirmed"],
